@@ -70,15 +70,16 @@ theorem C05_first_raise_installs (rf : Bool) (s : State) (hc : s.cell = none) :
       let s' := step rf s (.drv (.det e))
       s'.cell = some e ∧ s'.handled = some (convert e) ∧ s'.drets = convert e :: s.drets ∧
       s'.closes = s.closes ++ (closeOf e).toList) ∧
-    (∀ op, (∀ e, op ≠ .det e) → (step rf s (.drv op)).cell = none) := by
+    (∀ op, (∀ e, op ≠ .det e) → (∀ r, op ≠ .bidi r) → (step rf s (.drv op)).cell = none) := by
   refine ⟨?_, ?_, ?_⟩
   · intro i t e rest ht hm htodo
     simp [step, sstep, ht, hm, htodo, sset, hc]
   · intro e hn hp
     rcases hp with hp | hp <;> simp [step, dstep, hp, detect, hn, hc, observe]
-  · intro op hop
+  · intro op hop hop'
     cases op with
     | det e => exact absurd rfl (hop e)
+    | bidi r => exact absurd rfl (hop' r)
     | poll => simp only [step, dstep]; split <;> simp_all
     | park => simp only [step, dstep]; split <;> simp_all
     | pce =>
@@ -250,6 +251,95 @@ theorem C05_lost_wakeup_witness :
     lostWakeup s = true ∧ quiescent s = true ∧ s.cell = some (.internal 261 1) ∧
     s.parked = true ∧ s.woken = false ∧ s.handled = none ∧ s.closes = [] ∧ s.drets = [] ∧
     s.tasks.map (·.rets) = [[.internal 261 1]] := by decide
+
+/-! ## the client's driver: the tail of `poll_close` -/
+
+/-- **The end of a poll of client `poll_close` / `wait_idle`.**  Its last act is
+    `if poll_accept_bi(cx).is_ready() { return handle_connection_error(H3_STREAM_CREATION_ERROR) }`,
+    and `poll_accept_bi` is also `Ready` when the transport failed (it has then raised the transport's
+    error itself) — `DOp.bidi r`, `clientTail`.  In every reachable state (any handles, errors,
+    schedule, either order of register/check) in which the driver is inside a poll, that step ends
+    the poll (never parked) with the connection's single error `w`: the error already in the cell if
+    there is one — whoever stored it, a handle between the driver's last check and this point
+    included: neither the transport's error nor H3_STREAM_CREATION_ERROR replaces it —, otherwise
+    the transport's error, otherwise H3_STREAM_CREATION_ERROR; the call returns `convert w`,
+    `handled` is that, and the close calls are exactly `closeOf w` (so at most one, with the
+    winner's code, none for an error of the peer/transport); an error handled before stays and
+    nothing more is closed. -/
+theorem C05_client_poll_close_tail (rf : Bool) (todo : List (List Err)) (sched : List TaskId)
+    (r : Option QErr) :
+    let s := run rf (init todo) sched
+    let s' := step rf s (.drv (.bidi r))
+    (s.pc = .started ∨ s.pc = .armed) →
+    s'.pc = .idle ∧ s'.parked = false ∧
+    ∃ w, s'.cell = some w ∧ s'.handled = some (convert w) ∧ s'.closes = (closeOf w).toList ∧
+      (∃ rest, s'.drets = convert w :: rest) ∧
+      (∀ e, s.cell = some e → w = e) ∧
+      (s.cell = none → w = match r with | some q => .quic q | none => clientBidiErr) ∧
+      (∀ h, s.handled = some h → h = convert w ∧ s'.closes = s.closes) := by
+  intro s s' hp
+  have hw : InvW s := invW_run (invW_init todo) rf sched
+  have hP : InvP s := invP_run (invW_init todo) (invP_init todo) rf sched
+  have hw' : InvW s' := invW_step hw rf _
+  have hs' : s' = clientTail s r := by
+    show step rf s (.drv (.bidi r)) = _
+    rcases hp with hp | hp <;> simp [step, dstep, hp]
+  have hnp : s.parked = false := not_parked_of_pc hP (by rcases hp with hp | hp <;> rw [hp] <;> simp)
+  have hidle := clientTail_idle s r
+  -- the last `handle_connection_error` leaves `handled` set and returns it
+  have hret : ∀ (u : State) (e : Err), ∃ h, (detect u e).handled = some h ∧
+      ∃ rest, (detect u e).drets = h :: rest := by
+    intro u e
+    unfold detect
+    split
+    · rename_i h hh; exact ⟨h, hh, u.drets, rfl⟩
+    · exact ⟨_, rfl, u.drets, rfl⟩
+  have hh' : ∃ h, s'.handled = some h ∧ ∃ rest, s'.drets = h :: rest := by
+    rw [hs']; unfold clientTail; exact hret _ _
+  obtain ⟨h, hh, rest, hd⟩ := hh'
+  obtain ⟨w, hcw, hhw, hclw⟩ := hw'.handled_cell h hh
+  refine ⟨by rw [hs']; exact hidle.1, by rw [hs', hidle.2]; exact hnp, w, hcw, by rw [hh, hhw], hclw,
+    ⟨rest, by rw [hd, hhw]⟩, ?_, ?_, ?_⟩
+  · intro e he
+    have := cell_step he rf (.drv (.bidi r))
+    change s'.cell = some e at this
+    rw [hcw] at this; exact Option.some.inj this
+  · intro hn
+    have hhn : s.handled = none := by
+      cases hx : s.handled with
+      | none => rfl
+      | some h0 => obtain ⟨e0, hc0, _⟩ := hw.handled_cell h0 hx; rw [hn] at hc0; cases hc0
+    rw [hs'] at hcw
+    cases r with
+    | none =>
+      simp [clientTail, detect, hhn, hn, observe] at hcw
+      exact hcw.symm
+    | some q =>
+      simp [clientTail, detect, hhn, hn, observe, retHandled] at hcw
+      exact hcw.symm
+  · intro h0 hh0
+    obtain ⟨e0, hc0, hhe0, hcl0⟩ := hw.handled_cell h0 hh0
+    have hc0' := cell_step hc0 rf (.drv (.bidi r))
+    change s'.cell = some e0 at hc0'
+    rw [hcw] at hc0'; cases hc0'
+    exact ⟨hhe0, by rw [hclw, hcl0]⟩
+
+-- a handle stores its error after the driver's last check of the poll and before the client is
+-- handed a server-initiated stream: the handle's error is the outcome, closed with ITS code
+example :
+    let s := run true (init [[.internal 261 1]])
+      [.drv .poll, .drv .pce, .drv .pce, .str 0, .drv (.bidi none), .str 0, .drv .poll, .drv .pce]
+    s.cell = some (.internal 261 1) ∧ s.closes = [(261, 1)] ∧
+    s.drets = [.localApp 261 1, .localApp 261 1] ∧ s.tasks.map (·.rets) = [[.internal 261 1]] := by decide
+-- nothing before: the transport's error wins over the H3_STREAM_CREATION_ERROR raised behind it
+-- (two `handle_connection_error` calls, one outcome, no close for a peer's close); a stream: 0x0103
+example :
+    let s := run true (init [[]]) [.drv .poll, .drv .pce, .drv .pce, .drv (.bidi (some (.appClose 256)))]
+    s.cell = some (.quic (.appClose 256)) ∧ s.closes = [] ∧
+    s.drets = [.remote (.appClose 256), .remote (.appClose 256)] := by decide
+example :
+    let s := run true (init [[]]) [.drv .poll, .drv .pce, .drv .pce, .drv (.bidi none)]
+    s.cell = some (.internal 259 0) ∧ s.closes = [(259, 0)] ∧ s.drets = [.localApp 259 0] := by decide
 
 /-! ## `shutdown` (D-05s, repaired): the driver's remaining entry point reports the error too -/
 
